@@ -392,7 +392,7 @@ fn near_header(r: &mut Rng) -> Value {
         1 => { m.insert("kid".into(), json!(1)); }
         2 => { m.insert("x5c".into(), json!(["QUJD"])); }
         3 => { m.insert("x5c".into(), json!("QUJD")); }
-        4 => { m.insert("crit".into(), json!(["b64"])); }
+        4 => { m.insert("crit".into(), [json!(["b64"]), json!([]), json!(["exp", "exp"]), json!(null), json!({}), json!([1])][r.below(6)].clone()); }
         5 => { m.insert("cty".into(), json!({})); }
         6 => { m.insert("jku".into(), json!([1])); }
         _ => {}
@@ -748,7 +748,7 @@ pub fn structural(r: &mut Rng, parts: &Parts, fmt: Fmt, key: KeyId, kb_key: Opti
         }
         // long header members (a header far larger than any fixed buffer), also multi-byte
         let fills = multibyte_fillers();
-        for (k, v) in [("typ", json!("sd+jwt")), ("typ", json!(5)), ("kid", json!("k")), ("kid", json!(5)), ("x5c", json!(["QQ"])), ("x5c", json!([1])), ("cty", json!(null)), ("x5t", json!({})), ("alg", json!("none")), ("alg", json!("RS256")), ("crit", json!([1])),
+        for (k, v) in [("typ", json!("sd+jwt")), ("typ", json!(5)), ("kid", json!("k")), ("kid", json!(5)), ("x5c", json!(["QQ"])), ("x5c", json!([1])), ("cty", json!(null)), ("x5t", json!({})), ("alg", json!("none")), ("alg", json!("RS256")), ("crit", json!([1])), ("crit", json!([])), ("crit", json!(["exp"])), ("crit", json!("exp")), ("crit", json!([[]])), ("x5c", json!([])), ("jwk", json!({})), ("jwk", json!([])), ("jku", json!("")),
                        ("kid", json!("k".repeat(300))), ("kid", json!("k".repeat(600))), ("kid", json!("k".repeat(5000))), ("kid", json!(r.pick(&fills).clone())), ("typ", json!("t".repeat(1025))),
                        ("x5c", json!(vec!["QUJD".repeat(300); 8])), ("zz_unknown", json!({"a": "v".repeat(2000), "b": (0..300).collect::<Vec<_>>()}))] {
             // (the long ones cost the extracted model about a second each: a sample per flow unless every variant is asked for)
